@@ -28,6 +28,9 @@ var verifLoaderSnippets = []string{
 	"b /* c */ \"l\" {}\n",
 	"b \"l\" /* d */ \"m\" {\n",
 	"b l {\n",
+	"s { a = foo }\n",
+	"s \"l\" { a = 1 } # c\n",
+	"s {}\n",
 	"}\n",
 	"# lead\n",
 	"x = 1 # trail\n",
